@@ -47,3 +47,8 @@ EDITS = [
     {"id": "explicit-s-zero", "expect": "silent", "file": Y,
      "old": "                zip(zeta_knots_mm, sy_knots), order=3", "new": "                zip(zeta_knots_mm, sy_knots), s=0, order=3"},
 ]
+
+EDITS += [
+    {'id': 'swap-recurses-unswapped', 'expect': 'fire', 'rule': 'C14.O3', 'file': 'spowtd/spline.py', 'old': '            return -self.integrate(b, a)', 'new': '            return -self.integrate(a, b)'},
+    {'id': 'clamp-to-foreign-bounds', 'expect': 'fire', 'rule': 'C14.O2', 'file': 'spowtd/spline.py', 'old': 'np.maximum(x, self._tck[0][0]), self._tck[0][-1]', 'new': 'np.maximum(x, self._tck[0][1]), self._tck[0][-1]'},
+]
